@@ -24,14 +24,25 @@ type chunkReader struct {
 	plan  [][]byte
 	i     int
 	total int
+	mode  int  // see c18transport
+	idled bool // mode 2: the idle read before the current chunk has been made
 }
 
-func newChunkReader(plan [][]byte) *chunkReader { return &chunkReader{plan: plan} }
+// how the transport behaves beyond splitting the bytes, within what io.Reader allows:
+// 0 plain (n, nil) reads and then (0, EOF); 1 the last bytes arrive TOGETHER with EOF (n > 0, EOF), as
+// iotest.DataErrReader and some network stacks do; 2 a read that hands over nothing, (0, nil), before every chunk
+var c18transport = 0
+
+func newChunkReader(plan [][]byte) *chunkReader { return &chunkReader{plan: plan, mode: c18transport} }
 
 func (c *chunkReader) Read(p []byte) (int, error) {
 	for {
 		if c.i >= len(c.plan) {
 			return 0, io.EOF
+		}
+		if c.mode == 2 && !c.idled && len(p) > 0 {
+			c.idled = true
+			return 0, nil
 		}
 		ch := c.plan[c.i]
 		n := copy(p, ch)
@@ -40,6 +51,10 @@ func (c *chunkReader) Read(p []byte) (int, error) {
 			c.plan[c.i] = ch[n:]
 		} else {
 			c.i++
+			c.idled = false
+		}
+		if c.mode == 1 && c.i >= len(c.plan) && n > 0 {
+			return n, io.EOF
 		}
 		return n, nil
 	}
@@ -103,7 +118,10 @@ func runReader(v variantSpec, max int, plan [][]byte) (obs readObs) {
 	}
 	consumed := func() int {
 		if vr, ok := rd.(*varintReader); ok {
-			return cr.total - vr.r.Buffered()
+			// whatever the reader keeps between the transport and itself, if it says how much
+			if b, ok := any(vr.r).(interface{ Buffered() int }); ok {
+				return cr.total - b.Buffered()
+			}
 		}
 		return cr.total
 	}
@@ -243,7 +261,17 @@ func TestVerifC18(t *testing.T) {
 	defer out.Close()
 	rng := vharness.Rng()
 
-	emitRead := func(kind string, v variantSpec, max int, plan [][]byte, want [][]byte, wantErr string, nontrivial bool) {
+	var emitRead func(kind string, v variantSpec, max int, plan [][]byte, want [][]byte, wantErr string, nontrivial bool)
+	emitRead = func(kind string, v variantSpec, max int, plan [][]byte, want [][]byte, wantErr string, nontrivial bool) {
+		if c18transport == 0 && len(plan) > 0 {
+			// the same plan over a transport that delivers its last bytes together with EOF, and over one that
+			// makes an idle read before every chunk: the model (chunking independence) expects the same events
+			for _, m := range []int{1, 2} {
+				c18transport = m
+				emitRead(fmt.Sprintf("%s/transport-%d", kind, m), v, max, plan, want, wantErr, nontrivial)
+			}
+			c18transport = 0
+		}
 		obs := runReader(v, max, plan)
 		ok := true
 		note := ""
@@ -276,8 +304,8 @@ func TestVerifC18(t *testing.T) {
 		}
 		coq := fmt.Sprintf("CRead %s %d %s %s %s %d", v.coq, max, vharness.Bools(obs.oks), planCoq(plan),
 			vharness.List(obs.events), obs.buf)
-		out.Emit(vharness.Case{Kind: kind, Coq: coq, Key: coq, Nontrivial: nontrivial, OracleOK: ok, Note: note,
-			Replay: map[string]any{"variant": v.coq, "max": max, "plan": plan}})
+		out.Emit(vharness.Case{Kind: kind, Coq: coq, Key: fmt.Sprintf("%s#t%d", coq, c18transport), Nontrivial: nontrivial, OracleOK: ok, Note: note,
+			Replay: map[string]any{"variant": v.coq, "max": max, "plan": plan, "transport": []string{"plain", "last bytes together with EOF", "an idle (0, nil) read before every chunk"}[c18transport]}})
 	}
 
 	nRand := vharness.Budget(500, 20000)
